@@ -22,6 +22,7 @@ type Opts struct {
 	Extensions     bool // set extensions registered in GlobalTypes
 	BigCollections bool // occasionally 9..12 entries (crosses Go's 8-entry map bucket)
 	NoNaN          bool
+	ForceLazy      bool                              // populate lazy fields (and message fields leading to them) with high probability
 	OnlyFields     map[protoreflect.FieldNumber]bool // restrict top-level fields (nil = all)
 }
 
@@ -140,6 +141,9 @@ func populate(r *sim.Rng, m protoreflect.Message, o *Opts, depth int) {
 		}
 		if fd.Message() != nil && !fd.IsMap() {
 			p = p * 3 / 2
+			if o.ForceLazy && !fd.IsList() && (IsLazy(fd) || HasLazyField(fd.Message()) || leadsToLazy(fd.Message())) {
+				p = 850
+			}
 		}
 		if r.Intn(1000) >= p {
 			continue
@@ -279,4 +283,23 @@ func New(r *sim.Rng, mt protoreflect.MessageType, o Opts) proto.Message {
 	m := mt.New()
 	Populate(r, m, o)
 	return m.Interface()
+}
+
+// leadsToLazy reports whether md has a singular message field whose type declares a lazy field.
+func leadsToLazy(md protoreflect.MessageDescriptor) bool {
+	r := false
+	fds := md.Fields()
+	for i := 0; i < fds.Len(); i++ {
+		fd := fds.Get(i)
+		if fd.Message() != nil && !fd.IsList() && !fd.IsMap() && HasLazyField(fd.Message()) {
+			r = true
+		}
+	}
+	return r
+}
+
+// IsLazy reports whether fd is declared [lazy = true].
+func IsLazy(fd protoreflect.FieldDescriptor) bool {
+	l, ok := fd.(interface{ IsLazy() bool })
+	return ok && l.IsLazy()
 }
